@@ -45,7 +45,7 @@ import treeio
 import lexreflib as L
 
 THEOREMS = ["C14_conforms", "C14_conforms_directives", "C14_munch", "C14_unambiguous", "C14_separated",
-            "C14_nested_comments"]
+            "C14_nested_comments", "C14_follow_necessary", "C14_side_condition_exact", "C14_unicode_tables"]
 KEY_D26 = "radix-prefix-identifier"
 TRUSTED = [
     "Coq 8.16.1 kernel (coqc, vm_compute where the proofs use it); Print Assumptions of every theorem is checked against the allow-list (target: closed under the global context)",
@@ -237,6 +237,13 @@ def process_chunk(args):
                     if py_nm:
                         st["separated_implies_not_merged"] += 1
             all_valid = "0" not in py_valid
+            # converse (C14_side_condition_exact on the real code): valid pieces, MERGED, none of the coarse cases:
+            # the real lexer must NOT return the piece list
+            if all_valid and not py_nm and len(fl) >= 6 and fl[5] == "1":
+                st["converse_checked"] = st.get("converse_checked", 0) + 1
+                if observed_ok(r, expected_of_pieces(pieces)) and len(tie_fail) < 10:
+                    tie_fail.append({"tie": "side condition not necessary on the real lexer (C14_side_condition_exact): merged pieces were returned unmerged",
+                                     "pieces": [[k, esc(w)] for k, w in pieces]})
             if demand is None:
                 demand = all_valid and py_nm
             elif demand and not (all_valid and py_nm):
@@ -801,6 +808,81 @@ def llvm_acceptance(idents, ints):
 
 # ====================================================================== the check
 
+def unicode_tie(bindir, spec_exe, rng, quick):
+    """The two non-ASCII predicates of the lexer (char::is_whitespace, char::is_alphabetic):
+    (1) `unidump` evaluates the Rust std of the build toolchain on ALL scalar values 0..0x10FFFF;
+    (2) the tables the Coq proofs were checked against (coq/gen/GenUnicode.v on disk) and the tables inside the
+        extracted model (`lexspec_run unitables`) must denote exactly that set (compared on every scalar value);
+    (3) the extracted model PREDICATES Chars.is_whitespace / is_alphabetic (`lexspec_run uni`) must agree with the
+        std at every range boundary +-1 and on a random sample (quick) / on every scalar value (thorough).
+    Returns (tie failures, statistics)."""
+    fails, st = [], {}
+    try:
+        d = json.loads(subprocess.run([os.path.join(bindir, "unidump")], capture_output=True, text=True, timeout=300).stdout)
+    except Exception as ex:                                   # noqa: BLE001
+        return [{"tie": "unidump failed", "detail": str(ex)[:300]}], st
+    N = 0x110000
+
+    def bitmap(rows):
+        b = bytearray(N)
+        for lo, hi in rows:
+            b[lo:hi + 1] = b"\x01" * (hi + 1 - lo)
+        return b
+    real = {k: bitmap(d[k]) for k in ("whitespace", "alphabetic")}
+    st["std_true_counts"] = {k: sum(real[k]) for k in real}
+    # (2a) GenUnicode.v on disk
+    src = open(os.path.join(vlib.COQ, "gen", "GenUnicode.v")).read()
+    for name in ("whitespace", "alphabetic"):
+        m = re.search(r"Definition %s_ranges[^\[]*\[(.*?)\]\." % name, src, re.S)
+        rows = [(int(a), int(b)) for a, b in re.findall(r"\((\d+),\s*(\d+)\)", m.group(1))] if m else []
+        if bitmap(rows) != real[name]:
+            fails.append({"tie": "coq/gen/GenUnicode.v %s_ranges != char::is_%s of the toolchain's std over all scalar values" % (name, name),
+                          "rows_in_file": len(rows), "rows_in_std": len(d[name])})
+    # (2b) tables inside the extracted model
+    ext = {"whitespace": [], "alphabetic": []}
+    for line in subprocess.run([spec_exe, "unitables"], capture_output=True, text=True, timeout=120).stdout.split("\n"):
+        w = line.split()
+        if len(w) == 3:
+            ext[w[0]].append((int(w[1]), int(w[2])))
+    for name in ext:
+        if bitmap(ext[name]) != real[name]:
+            fails.append({"tie": "extracted table %s_ranges != std over all scalar values" % name})
+    # (3) extracted predicates
+    pts = set()
+    for name in ("whitespace", "alphabetic"):
+        for lo, hi in d[name]:
+            pts.update(x for x in (lo - 1, lo, lo + 1, hi - 1, hi, hi + 1) if 0 <= x < N)
+    pts.update((0, 127, 128, 0xD7FF, 0xE000, 0xFFFF, 0x10000, N - 1))
+    if quick:
+        pts.update(rng.randrange(N) for _ in range(2500))
+        pts = sorted(pts)
+    else:
+        pts = list(range(N))
+    chunks = [pts[i::WORKERS] for i in range(WORKERS)]
+    lines = [" ".join(map(str, c)) for c in chunks if c]
+    with ProcessPoolExecutor(max_workers=WORKERS) as ex:
+        outs = list(ex.map(_uni_worker, [(spec_exe, l) for l in lines]))
+    bad = []
+    for c, o in zip([c for c in chunks if c], outs):
+        bits = o.split()
+        if len(bits) != len(c):
+            fails.append({"tie": "lexspec_run uni: wrong output length"})
+            break
+        for x, b in zip(c, bits):
+            if (b[0] == "1") != bool(real["whitespace"][x]) or (b[1] == "1") != bool(real["alphabetic"][x]):
+                bad.append(x)
+    if bad:
+        fails.append({"tie": "model predicate Chars.is_whitespace/is_alphabetic != std", "scalar_values": bad[:10], "count": len(bad)})
+    st["scalar_values_compared_tables"] = N
+    st["scalar_values_compared_predicates"] = len(pts)
+    return fails, st
+
+
+def _uni_worker(a):
+    exe, line = a
+    return subprocess.run([exe, "uni"], input=line + "\n", capture_output=True, text=True, timeout=1200).stdout
+
+
 def corpus_files():
     fs = sorted(glob.glob(os.path.join(vlib.VERIF, "corpus", "**", "*.td"), recursive=True))
     src = "/verif/corpus"
@@ -899,7 +981,7 @@ def dev_known():
 def run(ctx):
     t0 = time.time()
     timing = {}
-    bindir = vlib.build_harness(False, bins=["lexdump"])
+    bindir = vlib.build_harness(False, bins=["lexdump", "unidump"])
     translators = ["t_tokens", "t_lextables", "t_unicode"]
     skip_proof = os.environ.get("C14_SKIP_PROOF") == "1"
     if skip_proof:
@@ -946,6 +1028,9 @@ def run(ctx):
     tie_fail += tb
     mb, n_member, n_member_pos, small_words = membership_tie(spec_exe, tkidx, ctx.quick)
     tie_fail += mb
+    ub, uni_stats = unicode_tie(bindir, spec_exe, ctx.rng, ctx.quick)
+    tie_fail += ub
+    ctx.cov["unicode_tie"] = uni_stats
     timing["spec_ties"] = round(time.time() - t1, 1)
 
     # ---------------------------------------------------------------- generation
@@ -1030,6 +1115,25 @@ def run(ctx):
         if L.is_instance(k, w):
             single_bad.append([k, esc(w), "negative is an instance"])
         cases.append(("negative", w, [(k, w)], False))
+    # (iii') exhaustive sweep around the 64-bit boundaries of interpret_number: every value 2^63 + d, 2^64 + d,
+    # 10^19 + d, 10^20 + d for |d| <= 48, spelt unsigned / + / - decimal (also with leading zeros), hex (both cases, leading
+    # zeros) and binary; the reference decides which spellings are integers (the others only go through the correspondence
+    # and the Coq-spec tie as negatives)
+    n_int_sweep = [0, 0]
+    sweep = sorted({b + d for b in (2 ** 63, 2 ** 64, 10 ** 19, 10 ** 20) for d in range(-48, 49)})
+    for v in sweep:
+        spell = [("IntVal", "%d" % v), ("IntVal", "+%d" % v), ("IntVal", "-%d" % v), ("IntVal", "000%d" % v),
+                 ("IntVal", "-0%d" % v), ("IntVal", "0x%x" % v), ("IntVal", "0x%X" % v), ("IntVal", "0x00%x" % v),
+                 ("BinaryIntVal", "0b" + bin(v)[2:]), ("BinaryIntVal", "0b0" + bin(v)[2:])]
+        for k, w in spell:
+            if L.is_instance(k, w):
+                n_int_sweep[0] += 1
+                add_seq("int-boundary", [(k, w, "single")], True)
+                add_seq("int-boundary", [("LParen", "(", "single"), (k, w, "single"), ("RParen", ")", "single")], True)
+            else:
+                n_int_sweep[1] += 1
+                cases.append(("negative", w, [(k, w)], False))
+    ctx.cov["int_boundary_sweep"] = {"values": len(sweep), "valid_spellings": n_int_sweep[0], "invalid_spellings": n_int_sweep[1]}
     if single_bad:
         tie_fail.append({"tie": "boundary lists of the generator vs lexreflib.is_instance", "bad": single_bad[:10]})
 
@@ -1258,7 +1362,7 @@ def replay(ctx, path):
         print(json.dumps(r, indent=1)[:3000])
         print("replay: this file names a broken proof obligation / tie, not an input; re-run ./check C14")
         return 1
-    bindir = vlib.build_harness(False, bins=["lexdump"])
+    bindir = vlib.build_harness(False, bins=["lexdump", "unidump"])
     vlib.run_translators(["t_tokens", "t_lextables", "t_unicode"])
     syn_exe = vlib.build_model("syntax")
     _sk, tkidx, tokd = treeio.kind_tables(vlib.REPO)
